@@ -3,6 +3,7 @@ import NetVerif.Gen.C36
 import NetVerif.Proofs.Lemmas.Dns
 import NetVerif.Proofs.C36
 import NetVerif.Proofs.Lemmas.DnsAccept
+import NetVerif.Proofs.Lemmas.DnsTotal
 /-!
 C37 — DNS parsing is safe and self-consistent on any input.
 
@@ -397,6 +398,18 @@ theorem skipMessage_unpackMessage_agree (msg : Bytes) (o1 : Nat) (m : Message) (
                   simp at h2
                   have := skipResources_agree msg _ _ _ _ _ h1 hb4
                   omega
+
+/-! ## Every loop of the reader terminates -/
+
+/-- **`Message.Unpack` terminates on every input**: none of the fuelled loops of the model
+(names, TXT strings, OPT options, SVCB parameters - given fuel `len(msg)+1`, `Length+1`) can run
+out of fuel, so the model's answer is always a genuine result or a genuine dnsmessage error. -/
+theorem unpackMessage_terminates (msg : Bytes) : unpackMessage msg ≠ .error .fuel :=
+  NetVerif.Proofs.DnsTotal.unpackMessage_noFuel msg
+
+/-- the same for a single record at any offset (`Parser.resource`, typed `XResource` methods) -/
+theorem unpackResource_terminates (msg : Bytes) (off : Nat) : unpackResource msg off ≠ .error .fuel :=
+  NetVerif.Proofs.DnsTotal.unpackResource_noFuel msg off
 
 /-! ## Accepted messages re-pack and re-unpack -/
 
